@@ -424,6 +424,42 @@ def json_members_checked(js):
     return False
 
 
+def pool_map_sites(io_dir: Path):
+    """EVERY call `<pool>.<method>(...)` in navis/io/*.py where <pool> is bound by `with <…Pool|…Executor>(…) as <pool>` or
+    `<pool> = <…Pool|…Executor>(…)`, plus every use of `as_completed`: [(module, enclosing function, method)] in source order.
+    `map` / `imap` / `starmap` return results in submission order; `imap_unordered`, `as_completed`, `apply_async`,
+    `map_async` + callbacks, `submit` do not (or leave the order to the caller)."""
+    sites = []
+    for p in sorted(io_dir.glob('*.py')):
+        tree = ast.parse(p.read_text())
+        funcs = [n for n in ast.walk(tree) if isinstance(n, (ast.FunctionDef, ast.AsyncFunctionDef))]
+        for fn in funcs:
+            pools = set()
+            for n in ast.walk(fn):
+                if isinstance(n, ast.With):
+                    for it in n.items:
+                        c = it.context_expr
+                        if isinstance(c, ast.Call) and _base_name(c.func).endswith(('Pool', 'Executor')) and isinstance(it.optional_vars, ast.Name):
+                            pools.add(it.optional_vars.id)
+                if isinstance(n, ast.Assign) and isinstance(n.value, ast.Call) and _base_name(n.value.func).endswith(('Pool', 'Executor')):
+                    for t in n.targets:
+                        if isinstance(t, ast.Name):
+                            pools.add(t.id)
+            # only the innermost function owning the pool reports the site
+            inner = [g for g in ast.walk(fn) if isinstance(g, (ast.FunctionDef, ast.AsyncFunctionDef)) and g is not fn]
+            inner_nodes = {id(x) for g in inner for x in ast.walk(g)}
+            for n in ast.walk(fn):
+                if id(n) in inner_nodes:
+                    continue
+                if isinstance(n, ast.Call) and isinstance(n.func, ast.Attribute) and isinstance(n.func.value, ast.Name) \
+                        and n.func.value.id in pools and n.func.attr not in ('close', 'join', 'terminate', 'shutdown'):
+                    sites.append((p.stem, fn.name, n.func.attr, n.lineno))
+                if isinstance(n, ast.Call) and _base_name(n.func) == 'as_completed':
+                    sites.append((p.stem, fn.name, 'as_completed', n.lineno))
+    sites.sort(key=lambda t: (t[0], t[3]))
+    return [(m, f, a) for m, f, a, _ in sites]
+
+
 def generate(repo: Path):
     io = Path(repo) / 'navis' / 'io'
     base, pre, nr = (ast.parse((io / f).read_text()) for f in ('base.py', 'precomputed_io.py', 'nrrd_io.py'))
@@ -440,6 +476,7 @@ def generate(repo: Path):
     h5units, h5soma, h5name, h5arr = h5_attr_facts(h5)
     js_checked = json_members_checked(js)
     tshape, ttrans, tdiag = info_transform_shape(pre)
+    psites = pool_map_sites(io)
 
     def cls(c):
         name, mod, b, fo, rb, rdf, ov = c
@@ -476,6 +513,8 @@ def infoTransformTransposed : Bool := {_b(ttrans)}
 def infoTransformDiagBlock : Bool := {_b(tdiag)}
 /-- `read_h5(parallel=…)`: pool method (`imap` keeps submission order). -/
 def h5ParallelMap : String := {_s(h5map)}
+/-- EVERY worker-pool call site of `navis/io/*.py`: (module, function, pool method). -/
+def poolMapSites : List (String × String × String) := [{', '.join(f'({_s(m)}, {_s(f)}, {_s(a)})' for m, f, a in psites)}]
 
 /-- `PrecomputedReader.is_valid_file`: a name is rejected when it contains / equals / ends with one of these. -/
 def preRejectContains : List String := {_lst(contains)}
